@@ -334,6 +334,13 @@ func (w *World) pureContract(pkgPath, name string) *Contract {
 			if c, ok := w.Contracts[imp.Path()+"."+rest]; ok && c.Pure {
 				return c
 			}
+			if j := strings.Index(rest, "."); j >= 0 {
+				for _, k := range []string{imp.Path() + ".(*" + rest[:j] + ")" + rest[j:], imp.Path() + ".(" + rest[:j] + ")" + rest[j:]} {
+					if c, ok := w.Contracts[k]; ok && c.Pure {
+						return c
+					}
+				}
+			}
 		}
 		for path := range w.Pkgs {
 			if path == q || strings.HasSuffix(path, "/"+q) {
